@@ -680,6 +680,14 @@ macro_rules! impl_graph_traits {
                 self.graph.node_weight(n)?;
                 self.order_map.remove_node(n, &self.graph);
                 let weight = self.graph.remove_node(n);
+                // `Graph::remove_node` moves the last node into the freed index
+                // (a `StableGraph` leaves it vacant): carry its position over.
+                if self.graph.node_weight(n).is_some() {
+                    let moved = NodeIndex::new(self.graph.node_count());
+                    let pos = self.order_map.get_position(moved, &self.graph);
+                    self.order_map.remove_node(moved, &self.graph);
+                    self.order_map.set_position(n, pos, &self.graph);
+                }
                 weight
             }
         }
